@@ -460,7 +460,7 @@ def run_namedtuple_cases(res, rng):
 def run_shard(pid, tier, seed, idx, n):
     common.setup_repo()
     res = _new_result()
-    total = 4000 if tier == "quick" else 60000
+    total = 8000 if tier == "quick" else 100000
     for i in range(idx, total, n):
         case = {"kind": "program", "seed": [seed, i, 47], "cx": i % 4 == 3, "out": "scalar" if i % 5 else ("container" if i % 10 else "dict")}
         try:
